@@ -342,6 +342,12 @@ class _DeviceManagementConnection(ABC):
                             "Discarding cEMI frame not answering the request: %s",
                             answer,
                         )
+                        if self.communication_channel is None:
+                            # closed since that frame arrived - `_stop()` found
+                            # no unfinished future to fail the request with
+                            raise CommunicationError(
+                                "Device management connection was closed."
+                            )
                         pending = asyncio.get_running_loop().create_future()
                         self._pending = pending
             except TimeoutError:
